@@ -25,9 +25,9 @@ pk=$(for d in $demo; do dirname $d; done | sort -u | sed 's#^luahelper-lsp/#./#'
 (cd luahelper-lsp && go test -vet=off -count=1 -run 'Seeded|seeded|Demo' $pk ) > /tmp/keep_$id.demo_with 2>&1; dw=$?
 echo "demo_with_change_exit=$dw" | tee -a $log
 # 3. demo without change
-git stash -q
+git apply -R /tmp/keep_$id.diff
 (cd luahelper-lsp && go test -vet=off -count=1 -run 'Seeded|seeded|Demo' $pk ) > /tmp/keep_$id.demo_without 2>&1; dwo=$?
-git stash pop -q
+git apply /tmp/keep_$id.diff
 echo "demo_without_change_exit=$dwo" | tee -a $log
 if [ $b -eq 0 ] && [ $s -eq 0 ] && [ $dw -ne 0 ] && [ $dwo -eq 0 ]; then
   mkdir -p $out/demo
